@@ -23,6 +23,7 @@ RULE = ('runs with layer children (-j N, or layers resumed after a NotImplemente
         'no partial data; always: no hang (structural deadlock detection), no worker thread died. '
         'distinct = digest of hook sequences + fired channel '
         'faults + completion order; non-trivial = a channel/child fault fired')
+RULE += (' ' + "Later additions: noise lines inside the report, stderr stalling after stdout closed, detached children, real exit statuses; one seed in four under line-level pre-emption of the parent's threads.")
 HOWS = ['exit0', 'exit3', 'kill', 'segv', 'sysexit', 'kbdint']
 UNI = ['test_ünï', 'test_中文', 'test_' + 'x' * 300, 'test_αβ']
 # spellings a test id can have through parametrisation / __str__ (line-boundary characters of
